@@ -214,7 +214,7 @@ func (kde *KDE) PDF(x float64) float64 {
 				return y(x+n*d) + y(x+n*d-w)
 			}) + series(func(n float64) float64 {
 				// Points < x
-				return y(x-(n+1)*d+w) + y(x-(n+1)*d)
+				return y(x-(n+1)*d-w) + y(x-(n+1)*d)
 			})
 		}
 	}
